@@ -14,12 +14,13 @@ Variable parse_tree : mapper -> tz -> res (option T * mapper * tz).
 Variable set_label : T -> option str -> T.
 Variable add_comments : T -> list str -> T.
 Variable vl : bool.
+Variable vs : bool.
 
 Hypothesis H_consumes : forall m z ot m' z',
   parse_tree m z = Ok (ot, m', z') -> exists pre, z_toks z = pre ++ z_toks z'.
 Hypothesis H_upper : forall s, upper (upper s) = upper s.
 
-Notation NR := (nexus_read T lower upper parse_tree set_label add_comments vl).
+Notation NR := (nexus_read T lower upper parse_tree set_label add_comments vl vs).
 Notation NY := (nexus_yield T lower upper parse_tree set_label add_comments vl).
 
 Lemma nexus_read_attached_eq : forall f1 f2 tlf ns0 d,
@@ -32,14 +33,14 @@ Proof. intros f1 f2 ns0 d. destruct f1, f2; reflexivity. Qed.
 
 (* list route = iterator, exactly *)
 Lemma routes_agree_nexus_repaired_l : forall (ns0 : list str) (d : doc),
-  (forall t, In t (fst d) -> is_sets_kw (Some (upper (t_text t))) = false) ->
+  (vs = true \/ forall t, In t (fst d) -> is_sets_kw (Some (upper (t_text t))) = false) ->
   let Y := yield_from_files T lower upper parse_tree set_label add_comments vl Nexus ns0 d in
-  treelist_read T lower upper parse_tree set_label add_comments true vl Nexus ns0 d
+  treelist_read T lower upper parse_tree set_label add_comments true vl vs Nexus ns0 d
   = match snd Y with Ok ns => Ok (fst Y, ns) | Err e => Err e | OutOfFuel => OutOfFuel end.
 Proof.
   intros ns0 d N Y. subst Y. rewrite yield_from_files_nexus. cbn [fst snd].
-  assert (NS : NoSets upper (fst d)) by (unfold NoSets; apply Forall_forall; exact N).
-  pose proof (nexus_read_of_yield T lower upper parse_tree set_label add_comments vl H_consumes H_upper
+  assert (NS : SetsOk upper vs (fst d)) by (destruct N as [N|N]; [left; exact N | right; unfold NoSets; apply Forall_forall; exact N]).
+  pose proof (nexus_read_of_yield T lower upper parse_tree set_label add_comments vl vs H_consumes H_upper
                 (mkNsCfg true (FacFixed true)) TLFixed ns0 d NS) as R.
   rewrite (nexus_yield_attached_eq (FacFixed true) (FacFixed false)) in R.
   unfold treelist_read, cfg_list. change (c_ns cfg_yield) with (mkNsCfg true (FacFixed false)).
@@ -52,18 +53,18 @@ Qed.
 
 (* TreeList.get = concatenation of DataSet.get(taxon_namespace=ns)'s lists, exactly *)
 Lemma dataset_blocks_concat_repaired_l : forall (d : doc),
-  (forall t, In t (fst d) -> is_sets_kw (Some (upper (t_text t))) = false) ->
-  match read_blocks T lower upper parse_tree set_label add_comments vl Nexus cfg_yield [] d with
-  | Ok (blocks, ns) => treelist_get T lower upper parse_tree set_label add_comments true vl Nexus d = Ok (concat blocks, ns)
-  | Err e => treelist_get T lower upper parse_tree set_label add_comments true vl Nexus d = Err e
-  | OutOfFuel => treelist_get T lower upper parse_tree set_label add_comments true vl Nexus d = OutOfFuel
+  (vs = true \/ forall t, In t (fst d) -> is_sets_kw (Some (upper (t_text t))) = false) ->
+  match read_blocks T lower upper parse_tree set_label add_comments vl vs Nexus cfg_yield [] d with
+  | Ok (blocks, ns) => treelist_get T lower upper parse_tree set_label add_comments true vl vs Nexus d = Ok (concat blocks, ns)
+  | Err e => treelist_get T lower upper parse_tree set_label add_comments true vl vs Nexus d = Err e
+  | OutOfFuel => treelist_get T lower upper parse_tree set_label add_comments true vl vs Nexus d = OutOfFuel
   end
-  /\ dataset_get T lower upper parse_tree set_label add_comments vl Nexus true d
-     = (do r <- read_blocks T lower upper parse_tree set_label add_comments vl Nexus cfg_yield [] d ;; Ok (fst r)).
+  /\ dataset_get T lower upper parse_tree set_label add_comments vl vs Nexus true d
+     = (do r <- read_blocks T lower upper parse_tree set_label add_comments vl vs Nexus cfg_yield [] d ;; Ok (fst r)).
 Proof.
   intros d N. split; [|reflexivity].
-  assert (NS : NoSets upper (fst d)) by (unfold NoSets; apply Forall_forall; exact N).
-  pose proof (list_vs_blocks T lower upper parse_tree set_label add_comments vl H_consumes H_upper
+  assert (NS : SetsOk upper vs (fst d)) by (destruct N as [N|N]; [left; exact N | right; unfold NoSets; apply Forall_forall; exact N]).
+  pose proof (list_vs_blocks T lower upper parse_tree set_label add_comments vl vs H_consumes H_upper
                 (mkNsCfg true (FacFixed false)) [] d NS) as H.
   unfold read_blocks, treelist_get, treelist_read, cfg_list.
   rewrite (nexus_read_attached_eq (FacFixed true) (FacFixed false) TLFixed).
